@@ -3,17 +3,20 @@
 package c03
 
 import (
+	"bytes"
 	"encoding/json"
 	"fmt"
 	"os"
+	"strings"
 	"testing"
 
+	"github.com/rs/zerolog"
 	"pgregory.net/rapid"
 	"verif/harness/ev"
 	"verif/harness/lp"
 )
 
-const rule = "cases = logger derivation chains (With/Hook/Level/Output/Sample/UpdateContext/Context.Timestamp/Context.Caller, depth<=8 quick, <=16 thorough) x hook lists (add-field, discard, GetCtx reader, noop; direct/HookFunc/LevelHook) x events x finalizers with unique keys; oracle = logger-tree model on the ordered key sequence + hook invocation log; non-trivial = chain depth>=3 with a Hook step and With steps on both sides of it; distinct = FNV-64 of the serialised program"
+const rule = "cases = logger derivation chains (With/Hook/Level/Output/Sample/UpdateContext/Context.Timestamp/Context.Caller, depth<=8 quick, <=16 thorough) x hook lists (add-field, discard, GetCtx reader, noop; direct/HookFunc/LevelHook) x events x finalizers with unique keys; plus the io.Writer entry point (Logger.Write with hooks that keep their message while the caller reuses its buffer); oracle = logger-tree model on the ordered key sequence + hook invocation log; non-trivial = chain depth>=3 with a Hook step and With steps on both sides of it; distinct = FNV-64 of the serialised program"
 
 var rec = ev.New("C03", rule)
 
@@ -134,6 +137,59 @@ func TestRapidTrees(t *testing.T) {
 		normalise(p)
 		rec.Class("tree-program", 1)
 		check(rt, "tree", p)
+	})
+}
+
+// The io.Writer entry point (the standard library logger writing through a zerolog.Logger): one
+// level-less event per call whose message is the line without its final newline; every hook runs once
+// and receives that message — as a value of its own, not a view of the caller's buffer, which the
+// caller is free to reuse as soon as Write has returned.
+type keepHook struct{ got *[]string }
+
+func (h keepHook) Run(e *zerolog.Event, l zerolog.Level, m string) {
+	*h.got = append(*h.got, fmt.Sprintf("%d|", l)+m) // keeps m by reference (string concatenation copies — so keep m itself too)
+	*h.got = append(*h.got, m)
+}
+
+func TestWriteEntryPoint(t *testing.T) {
+	rapid.Check(t, func(rt *rapid.T) {
+		msg := rapid.StringMatching(`[a-zA-Z0-9 éß"\\]{0,40}`).Draw(rt, "msg")
+		nl := rapid.IntRange(0, 2).Draw(rt, "newlines")
+		nh := rapid.IntRange(1, 3).Draw(rt, "hooks")
+		var kept []string
+		var out bytes.Buffer
+		l := zerolog.New(&out).With().Str("svc", "x").Logger()
+		for i := 0; i < nh; i++ {
+			l = l.Hook(keepHook{&kept})
+		}
+		buf := []byte(msg + strings.Repeat("\n", nl))
+		orig := string(buf)
+		n, err := l.Write(buf)
+		for i := range buf { // the caller reuses its buffer
+			buf[i] = '#'
+		}
+		wantMsg := strings.TrimSuffix(orig, "\n")
+		rec.Case([]byte(orig+fmt.Sprint(nh)), nl > 0 && nh > 1, "write-entry")
+		if err != nil || n != len(orig) {
+			fail(rt, "write", nil, fmt.Sprintf("Logger.Write returned (%d, %v) for %d bytes", n, err, len(orig)))
+		}
+		if len(kept) != 2*nh {
+			fail(rt, "write", nil, fmt.Sprintf("%d hook invocations for one Write through %d hooks", len(kept)/2, nh))
+		}
+		for i := 0; i < len(kept); i += 2 {
+			if kept[i+1] != wantMsg || kept[i] != fmt.Sprintf("%d|", zerolog.NoLevel)+wantMsg {
+				fail(rt, "write", nil, fmt.Sprintf("hook %d holds level|message %q and message %q after the caller reused its buffer; the line written was %q", i/2, kept[i], kept[i+1], wantMsg))
+			}
+		}
+		var evt map[string]interface{}
+		if err := json.Unmarshal(out.Bytes(), &evt); err != nil {
+			fail(rt, "write", nil, fmt.Sprintf("unparseable event %q: %v", out.Bytes(), err))
+		}
+		_, hasLevel := evt["level"]
+		gotMsg, _ := evt["message"].(string)
+		if hasLevel || gotMsg != wantMsg && !(wantMsg == "" && evt["message"] == nil) || evt["svc"] != "x" {
+			fail(rt, "write", nil, fmt.Sprintf("event %q for line %q", out.Bytes(), orig))
+		}
 	})
 }
 
